@@ -480,6 +480,7 @@ func ruleAdmit(p *Program, r *Result) {
 				}
 				foundLookup = true
 				key := fnKey(cl)
+				ruleAnswersOnlyFromLookup(p, r, g.Call.StaticCallee(), key)
 				var denyCall, allowCall, scan *ssa.Call
 				for _, c := range allCalls(cl) {
 					call, ok := c.(*ssa.Call)
@@ -617,6 +618,81 @@ func ruleAdmit(p *Program, r *Result) {
 	ruleBuildScopes(p, r)
 	ruleAcceptRefusal(p, r)
 	r.floor("R-ADMIT", 10)
+}
+
+// ruleAnswersOnlyFromLookup: a query is answered by the lookup goroutine and by nothing else. The answer type is the
+// element type of the channel the lookup goroutine sends its result on; a send of that type anywhere in the loader
+// outside of the code the lookup goroutine executes (the update loop answering from a table of earlier answers, a
+// fast path for 'known' remotes) is an answer that did not pass the deny filter, the allow filter and the ordered
+// scan of the providers of the configuration current at the time of the query.
+func ruleAnswersOnlyFromLookup(p *Program, r *Result, lookup *ssa.Function, key string) {
+	inLookup := map[*ssa.Function]bool{}
+	var walk func(f *ssa.Function)
+	walk = func(f *ssa.Function) {
+		if f == nil || inLookup[f] || f.Blocks == nil {
+			return
+		}
+		inLookup[f] = true
+		for _, c := range allCalls(f) {
+			if _, isGo := c.(*ssa.Go); isGo {
+				continue
+			}
+			if g := c.Common().StaticCallee(); g != nil && g.Pkg == f.Pkg {
+				walk(g)
+			}
+		}
+		for _, a := range f.AnonFuncs {
+			walk(a)
+		}
+	}
+	walk(lookup)
+	sendsOf := func(f *ssa.Function) []*ssa.Send {
+		var out []*ssa.Send
+		for _, b := range f.Blocks {
+			for _, in := range b.Instrs {
+				if sd, ok := in.(*ssa.Send); ok {
+					out = append(out, sd)
+				}
+			}
+		}
+		return out
+	}
+	var answer []types.Type
+	for f := range inLookup {
+		for _, sd := range sendsOf(f) {
+			if ct, ok := sd.Chan.Type().Underlying().(*types.Chan); ok {
+				if _, isStruct := ct.Elem().Underlying().(*types.Struct); isStruct {
+					answer = append(answer, ct.Elem())
+				}
+			}
+		}
+	}
+	if len(answer) == 0 {
+		r.undecided("R-ADMIT", key+":answered-only-by-the-lookup", p.Pos(lookup.Pos()), "the lookup goroutine sends no struct-typed answer on a channel")
+		return
+	}
+	good := true
+	for _, f := range p.UnitsIn(func(path string) bool { return path == loaderPkg }) {
+		if inLookup[f] || inLookup[p.orig(f)] {
+			continue
+		}
+		for _, sd := range sendsOf(f) {
+			ct, ok := sd.Chan.Type().Underlying().(*types.Chan)
+			if !ok {
+				continue
+			}
+			for _, at := range answer {
+				if types.Identical(ct.Elem(), at) {
+					good = false
+					r.bad("R-ADMIT", key+":answered-only-by-the-lookup:"+fnKey(f), p.Pos(sd.Pos()),
+						"a lookup answer (%s) is sent from %s, outside of the lookup goroutine: this answer has not passed the deny filter, the allow filter and the ordered provider scan of the current configuration (an answer kept from an earlier lookup survives a reload and skips the filters)", typeName(at), fnKey(f))
+				}
+			}
+		}
+	}
+	if good {
+		r.ok("R-ADMIT", key+":answered-only-by-the-lookup", p.Pos(lookup.Pos()), true, "every send of the lookup's answer type in the loader is executed by the lookup goroutine (%d functions)", len(inLookup))
+	}
 }
 
 // ruleProviderScan: ordered scan, first provider with (secret, handler, nil) wins, exhaustion refuses.
